@@ -264,3 +264,26 @@ Fixpoint dsctx_ok (known : list (str * str)) (evs : list (nsop * nsout)) : bool 
     && dsctx_ok known r
   | _ :: r => dsctx_ok known r
   end.
+
+(** one identifier, one CURIE: whenever (and through whichever entry point) the same URI is compacted
+    again, the answer is the CURIE it was given before *)
+Fixpoint compact_fun_ok (known : list (str * str)) (evs : list (nsop * nsout)) : bool :=
+  match evs with
+  | [] => true
+  | (NCompact u, OStr c) :: r =>
+    (match slookup u known with Some c' => str_eqb c' c | None => true end) && compact_fun_ok ((u, c) :: known) r
+  | _ :: r => compact_fun_ok known r
+  end.
+
+(** the other split rule (a seeded change used it in one entry point): cut after the last '#' OR '/' *)
+Fixpoint last_index_any (s : str) : option nat :=
+  match s with
+  | [] => None
+  | x :: s' =>
+    match last_index_any s' with
+    | Some i => Some (S i)
+    | None => if N.eqb x c_hash || N.eqb x c_slash then Some O else None
+    end
+  end.
+Definition url_parts_any (s : str) : option (str * str) :=
+  match last_index_any s with Some i => Some (split_after i s) | None => None end.
